@@ -391,7 +391,7 @@ func (u *Unit) assumeWF(p *Path, t *Term, T types.Type) {
 	case *types.Slice:
 		if t.Sort == "Slice" && t.Op != "mk_Slice" {
 			p.assume(And(Ge(enc.Sel("sl_arr", t), IntLit(0)), Le(enc.Sel("sl_arr", t), alloc),
-				Ge(enc.Sel("sl_off", t), IntLit(0)), Ge(enc.Sel("sl_len", t), IntLit(0)), Le(enc.Sel("sl_len", t), enc.Sel("sl_cap", t))))
+				Eq(enc.Sel("sl_off", t), IntLit(0)), Ge(enc.Sel("sl_len", t), IntLit(0)), Le(enc.Sel("sl_len", t), enc.Sel("sl_cap", t))))
 		}
 	}
 }
@@ -616,7 +616,7 @@ func (u *Unit) exec(p *Path, in ssa.Instruction) {
 			sl := u.val(p, x.X)
 			o := u.ob(u.siteName(x, "index"), "safe", nil, "index out of range")
 			u.check(p, o, And(Ge(idx, IntLit(0)), Lt(idx, enc.Sel("sl_len", sl))))
-			p.addrs[x] = &Addr{Kind: "cell", Comp: enc.cellsComp(enc.SortOf(ut.Elem())).Name, Arr: enc.Sel("sl_arr", sl), Idx: Add(enc.Sel("sl_off", sl), idx), T: ut.Elem()}
+			p.addrs[x] = &Addr{Kind: "cell", Comp: enc.cellsComp(enc.SortOf(ut.Elem())).Name, Arr: enc.Sel("sl_arr", sl), Idx: idx, T: ut.Elem()}
 		case *types.Pointer:
 			at := ut.Elem().Underlying().(*types.Array)
 			arr := u.val(p, x.X)
@@ -1016,7 +1016,10 @@ func (u *Unit) execSlice(p *Path, x *ssa.Slice) {
 		}
 		o := u.ob(u.siteName(x, "slice"), "safe", nil, "slice bounds out of range")
 		u.check(p, o, And(Ge(lo, IntLit(0)), Le(lo, hi), Le(hi, enc.Sel("sl_cap", sl))))
-		p.vals[x] = enc.Mk("mk_Slice", enc.Sel("sl_arr", sl), Add(enc.Sel("sl_off", sl), lo), Sub(hi, lo), Sub(enc.Sel("sl_cap", sl), lo)).WithT(x.Type())
+		if !(lo.Op == "#int" && lo.Lit == "0") {
+			u.fail("re-slicing with a non-zero lower bound is not modelled (slice offsets are assumed 0)")
+		}
+		p.vals[x] = enc.Mk("mk_Slice", enc.Sel("sl_arr", sl), IntLit(0), hi, enc.Sel("sl_cap", sl)).WithT(x.Type())
 	default:
 		u.fail("slice of %s", x.X.Type())
 	}
